@@ -135,7 +135,7 @@ func Prog(req *Request) (res *ProgRes) {
 func (r *run) guarded(i int, or *OpRes, call func() error) {
 	defer func() {
 		if p := recover(); p != nil {
-			if up, ok := p.(UserPanic); ok {
+			if up, ok := asUserPanic(p); ok {
 				or.V = verdictPanic{fmt.Sprintf("user:%d:%d", up.Fn, up.X)}
 			} else {
 				or.V = verdictPanic{"dig"}
